@@ -4,7 +4,7 @@
 From Coq Require Import ZArith QArith Qround List Bool NArith Permutation.
 From HK Require Import Model.Queue Model.QueueMon Model.Retry Model.Dispatcher Model.PushLoop
   Proofs.QueueBase Proofs.QueueInv Proofs.PushLoopProofs Proofs.PushCycleProofs Proofs.PushRecordsProofs Gen.PushShape
-  Proofs.PushShapeProofs.
+  Proofs.PushShapeProofs Model.Attempts Proofs.AttemptsProofs Proofs.PushAttemptLogProofs.
 Import ListNotations.
 Open Scope Z_scope.
 
@@ -113,6 +113,21 @@ Example C06_micro_batch_records_example :
   /\ map enc_record (run_records 4 ex_items) = [[11; 1; 2; 0; 200]; [12; 2; 1; 0; 503]; [13; 1; 3; 1; 404]].
 Proof. vm_compute. split; reflexivity. Qed.
 
+(** ... and the records reach the store's attempt log (Model/Attempts.v, the log C13att is about): the dispatcher hands them to
+    RecordAttempt with a blank id, so each is appended, in order; a message that was sent has its attempt in the log under its event id
+    and attempt number, whatever is recorded afterwards. *)
+Theorem C06_micro_batch_attempts_reach_the_attempt_log : forall event_of route target created stop its log,
+  fold_left rec1 (map (att_of_record event_of route target created) (run_records stop its)) log
+  = log ++ map (att_of_record event_of route target created) (run_records stop its).
+Proof. exact micro_batch_attempts_reach_the_log. Qed.
+
+Theorem C06_sent_message_attempt_stays_in_the_log : forall event_of route target created stop its log it later,
+  NoDup (map it_lease its) ->
+  In it (sent_items stop its) ->
+  exists a, In a (log_after (fold_left rec1 (map (att_of_record event_of route target created) (run_records stop its)) log) later)
+    /\ a_event a = event_of (it_lease it) /\ a_attempt a = it_attempt it.
+Proof. exact sent_message_attempt_is_in_the_log. Qed.
+
 (** * A whole enqueue/requeue cycle on the queue
     Model/Dispatcher.v's [cycle] assumes that every dequeue increments the attempt by one and that a nack re-queues the
     message while ack / mark-dead end the cycle.  On the queue model this is a theorem: a chain of rounds on message i - a
@@ -178,6 +193,8 @@ Print Assumptions C06_micro_batch_records_one_attempt_per_sent_message.
 Print Assumptions C06_micro_batch_record_is_the_settlement.
 Print Assumptions C06_micro_batch_unsent_message_has_no_record.
 Print Assumptions C06_micro_batch_no_lease_recorded_twice.
+Print Assumptions C06_micro_batch_attempts_reach_the_attempt_log.
+Print Assumptions C06_sent_message_attempt_stays_in_the_log.
 Print Assumptions C06_cycle_on_the_queue_is_the_cycle.
 Print Assumptions C06_cycle_on_the_queue_sends_bounded.
 Print Assumptions C06_run_route_source_shape.
